@@ -262,6 +262,7 @@ PROPS["C03"] = dict(
         Leg("api", ["models/c03_api.cpp"], "asan", ["--depth", "2"], ["--depth", "2"], timeout_thorough=14000),
         Leg("rtbig", ["models/c03_api.cpp"], "asan", ["--subset", "rtbig", "--depth", "3"], ["--subset", "rtbig", "--depth", "4"], timeout_thorough=14000),
         Leg("cores", ["models/c03_api.cpp"], "asan", ["--subset", "cores", "--depth", "2"], ["--subset", "cores", "--depth", "3"], timeout_thorough=14000),
+        Leg("banks", ["models/c03_api.cpp"], "asan", ["--subset", "banks", "--depth", "7"], ["--subset", "banks", "--depth", "9"], timeout_thorough=14000),
     ],
     rule="BFS; state = full player + sequencer snapshot; the 'api' leg uses null chips, the 'cores' leg the real emulator cores",
     assumptions=RT_ASSUME[:2] + ["CPU budget 60 s per call (ITIMER_PROF); a worker death is attributed to the announced call and confirmed by replaying that history alone"],
